@@ -31,3 +31,32 @@ func VerifIsHeaderParseError(err error) bool {
 	_, ok := err.(*headerParseError)
 	return ok
 }
+
+// verifPNManager hands appendInitialPacketPayload the packet number it expects to pop.
+type verifPNManager struct{ pn protocol.PacketNumber }
+
+func (m verifPNManager) PeekPacketNumber(protocol.EncryptionLevel) (protocol.PacketNumber, protocol.PacketNumberLen) {
+	return m.pn, protocol.PacketNumberLen4
+}
+func (m verifPNManager) PopPacketNumber(protocol.EncryptionLevel) protocol.PacketNumber { return m.pn }
+
+// VerifUInitialDatagram runs uPacketPacker.appendInitialPacketPayload (the uQUIC Initial serialisation
+// glue) on a fresh packet buffer with the given sealer, a spec with one InitialPacketPlan{PacketSize}
+// and UDPDatagramMinSize, and returns the datagram left in the buffer.
+func VerifUInitialDatagram(s handshake.LongHeaderSealer, header *wire.ExtendedHeader, framePayload []byte, packetSize, udpMin int, v protocol.Version) ([]byte, error) {
+	spec := &QUICSpec{UDPDatagramMinSize: udpMin}
+	if packetSize > 0 {
+		spec.InitialPacketSpec.InitialPackets = []InitialPacketPlan{{PacketSize: packetSize}}
+	}
+	p := &uPacketPacker{
+		packetPacker: &packetPacker{pnManager: verifPNManager{pn: header.PacketNumber}},
+		uSpec:        spec,
+	}
+	buffer := getPacketBuffer()
+	defer buffer.Release()
+	_, err := p.appendInitialPacketPayload(buffer, header, payload{}, append([]byte{}, framePayload...), 0, protocol.EncryptionInitial, s, v)
+	if err != nil {
+		return nil, err
+	}
+	return append([]byte{}, buffer.Data...), nil
+}
